@@ -58,7 +58,7 @@ theorem cleanNode_text (L : Lists) (c : Cfg) : ∀ (node : Node) (d : Nat),
   | .text s, _ => by simp [cleanNode, textOfL, textOf, keptText]
   | .other, _ => by simp [cleanNode, textOfL, keptText]
   | .elem n as cs, d => by
-    simp only [cleanNode, keptText, ← removeCheck_eq]
+    simp only [cleanNode, keptText, renamed_eq_model, tooDeep_eq_model, ← removeCheck_eq]
     by_cases hr : removeCheck L c (replaceNameOf L c n) d = true
     · have : nodeAction L c (replaceNameOf L c n) (replaceAttrsOf L c n as) d = .remove :=
         (nodeAction_remove_iff ..).2 hr
@@ -123,7 +123,8 @@ theorem attrGood_iff (L : Lists) (c : Cfg) (n : Str) (a : Attr) :
       attrOkA L c n a ∧
       (a.name = className → ∀ cl ∈ splitWs a.value, classOk L c n cl = true) := by
   unfold AttrGood attrOkA attrOk attrListed attrCtx Attr.isHtml
-  have hcl : ∀ cl, classPass (attrCtx L c n) cl = classOk L c n cl := fun cl => rfl
+  have hcl : ∀ cl, classPass (attrCtx L c n) cl = classOk L c n cl :=
+    fun cl => (classOk_eq_model L c n cl).symm
   simp only [attrCtx] at hcl
   simp only [hcl]
   cases h1 : optContains (c.removeAttrs.bind (mapGet · n)) a.name <;>
